@@ -232,8 +232,8 @@ def shrink(cls, ops):
 def run(ctx):
     ctx.prove()
     rng = ctx.rng
-    n_random = 300 if ctx.quick else 6000
-    ex_len = 4 if ctx.quick else 5
+    n_random = 300 if ctx.quick else 20000
+    ex_len = 4      # 11 110 histories for the base class, 1 110 for each sequence class
     classes = ["base", "seq", "seq_strict"]
     seen = set()
     kinds = {"node": 0, "arc": 0, "depot": 0, "err": 0, "rekey": 0}
